@@ -31,7 +31,8 @@ WF(e) ==
         \* the witnesses
         /\ (~DividesByZero(e.op, e.b, e.c) =>
               /\ FxExact(T, e.op, e.rule, e.a, e.b, e.c, e.w)
-              /\ (e.op = "mod" => IsRounded(ZMul(e.a, T.factor), e.b, "towardZero", e.w2)))
+              /\ (e.op = "mod" => IsRounded(ZMul(e.a, T.factor), e.b, "towardZero", e.w2))
+              /\ (e.op = "muldiv" => IsRounded(ZMul(e.a, e.b), e.c, "towardZero", e.w2)))
 
 Valid(e) == FxValid(tt[e.t], e.op, e.rule, e.a, e.b, e.c, e.out, e.r, e.w, e.w2)
 
@@ -51,7 +52,7 @@ Verdict(e) == IF ~WF(e) THEN "malformed" ELSE IF Valid(e) THEN "ok" ELSE "bad"
 
 Report(e, v) ==
   IF v = "bad"
-  THEN PrintT(ToJson([k |-> e.k, v |-> v, cls |-> Class(e), dev |-> "none",
+  THEN PrintT(ToJson([k |-> e.k, v |-> v, cls |-> Class(e), dev |-> FxDeviation(tt[e.t], e.op, e.out, e.r, e.w, e.w2),
                       exp |-> FxExpected(tt[e.t], e.op, e.a, e.b, e.c, e.w, e.w2)]))
   ELSE PrintT(ToJson([k |-> e.k, v |-> v, cls |-> "", dev |-> "none", exp |-> [out |-> "", r |-> ZZero]]))
 
